@@ -48,6 +48,8 @@ pub struct BatchOut {
     pub observed_max: u64,
     pub max_probe_cpu_us: u64,
     pub max_valid_cpu_us: u64,
+    pub max_valid_debug_call_us: u64,
+    pub growth_refused: u64,
     pub forks: u64,
     pub notes: Vec<String>,
 }
@@ -57,7 +59,10 @@ pub struct Limits {
     pub rlimit_as: u64,
 }
 
-fn set_timer(seconds: f64) {
+/// CPU budget of a probe in whole seconds (for code that replaces the timer temporarily and has to re-arm it).
+pub static PROBE_BUDGET_S: std::sync::atomic::AtomicU64 = std::sync::atomic::AtomicU64::new(20);
+
+pub fn set_timer(seconds: f64) {
     let tv = libc::timeval { tv_sec: seconds.floor() as libc::time_t, tv_usec: ((seconds.fract()) * 1e6) as libc::suseconds_t };
     let it = libc::itimerval { it_interval: libc::timeval { tv_sec: 0, tv_usec: 0 }, it_value: tv };
     unsafe {
@@ -75,13 +80,13 @@ fn read_tail(path: &Path, max: usize) -> String {
 }
 
 /// Runs probes `0..n`. `run_one(k)` is only ever called in a forked process; `describe(k)` (called in the
-/// supervisor) renders probe `k` for the witness of a fatal outcome; `fatal_slot(k)` gives its slot.
+/// supervisor) gives `(slot, entry point, description, witness)` of probe `k` for a fatal outcome.
 pub fn run_batch(
     n: usize,
     limits: &Limits,
     errfile: &Path,
     run_one: &dyn Fn(usize) -> ProbeOut,
-    describe: &dyn Fn(usize) -> (usize, String, Value),
+    describe: &dyn Fn(usize) -> (usize, String, String, Value),
 ) -> BatchOut {
     let sh: &'static Shared = alloc::map_shared();
     sh.reset_batch();
@@ -183,7 +188,7 @@ pub fn run_batch(
             out.notes.push(format!("batch process died during set-up ({how}); stderr: {tail}"));
             break;
         }
-        let (slot, what, wit) = describe(k);
+        let (slot, what, long, wit) = describe(k);
         let slot = slot.min(SLOTS - 1);
         let rk = sh.refused_kind.load(Relaxed);
         let rsize = sh.refused_size.load(Relaxed);
@@ -195,23 +200,22 @@ pub fn run_batch(
             let sig = format!("hang:{what}");
             if !seen_sigs.contains(&sig) {
                 seen_sigs.push(sig.clone());
-                out.violations.push((sig, format!("probe burned more than {} s CPU without returning (SIGPROF): {what}", limits.cpu_budget_s), wit));
+                let b = if what.ends_with("debug-fmt") { "its Debug-call CPU budget (debug_budget_s)".to_string() } else { format!("{} s CPU", limits.cpu_budget_s) };
+                out.violations.push((sig, format!("probe burned more than {b} without returning (SIGPROF): {long}"), wit));
             }
-        } else if rk == 1 || rk == 3 {
+        } else if rk != 0 {
+            // the property does not bound memory: a refused request is a resource limit, whatever asked for it
             out.matrix[slot][OC_RESOURCE] += 1;
-            if out.resource_limited.len() < 3 {
-                out.resource_limited.push(format!("{what}: allocation request of {rsize} bytes refused (kind {rk}), process ended with {how}"));
+            if rk == 2 {
+                out.growth_refused += 1;
             }
-        } else if rk == 2 {
-            out.matrix[slot][OC_FATAL] += 1;
-            let sig = format!("runaway-allocation:{what}");
-            if !seen_sigs.contains(&sig) {
-                seen_sigs.push(sig.clone());
-                out.violations.push((
-                    sig,
-                    format!("a buffer that already held {rold} bytes was being grown to {rsize} bytes while decoding an input of a few kB: output grows without bound ({how}); stderr: {tail}"),
-                    wit,
-                ));
+            if out.resource_limited.len() < 3 {
+                let why = match rk {
+                    1 => "single request above the limit".to_string(),
+                    2 => format!("growth of a buffer that already held {rold} bytes"),
+                    _ => "the system allocator returned null (RLIMIT_AS)".to_string(),
+                };
+                out.resource_limited.push(format!("{long}: allocation request of {rsize} bytes refused ({why}), process ended with {how}"));
             }
         } else {
             out.matrix[slot][OC_FATAL] += 1;
@@ -230,7 +234,7 @@ pub fn run_batch(
             let sig = format!("{class}:{what}{site}");
             if !seen_sigs.contains(&sig) {
                 seen_sigs.push(sig.clone());
-                out.violations.push((sig, format!("the process died ({how}) while running this probe; last panic: [{ptext}]; stderr: {tail}"), wit));
+                out.violations.push((sig, format!("the process died ({how}) while running this probe: {long}; last panic: [{ptext}]; stderr: {tail}"), wit));
             }
         }
         start = k + 1;
@@ -247,5 +251,6 @@ pub fn run_batch(
     out.observed_max = sh.observed_max.load(Relaxed);
     out.max_probe_cpu_us = sh.max_probe_cpu_us.load(Relaxed);
     out.max_valid_cpu_us = sh.max_valid_cpu_us.load(Relaxed);
+    out.max_valid_debug_call_us = sh.max_valid_debug_call_us.load(Relaxed);
     out
 }
